@@ -15,7 +15,13 @@ git apply $D/patch.diff >> $LOG 2>&1 || { echo "CONFIRM $D: patch does not apply
 nice cmake --build _b -j12 >> $LOG 2>&1; BUILD=$?
 echo "-- ctest with the patch (build rc=$BUILD)" >> $LOG
 nice ctest --test-dir _b -j8 --timeout 900 > $D/ctest.out 2>&1; tail -8 $D/ctest.out >> $LOG
-FAILED=$(grep -E "^\s+[0-9]+ - " $D/ctest.out | grep -v "test_tcm_" | wc -l); PASSED=$(grep -c "   Passed" $D/ctest.out); rm -f $D/ctest.out
+FAILED=$(grep -E "^\s+[0-9]+ - " $D/ctest.out | grep -v "test_tcm_" | wc -l); PASSED=$(grep -c "   Passed" $D/ctest.out)
+if [ $FAILED -gt 0 ]; then   # a loaded machine makes long tests time out: the failed ones are run once more, two at a time, with a longer limit
+  echo "-- re-running the failed tests: $(grep -E "^\s+[0-9]+ - " $D/ctest.out | grep -v test_tcm_ | tr -s ' ' | tr '\n' ';')" >> $LOG
+  nice ctest --test-dir _b --rerun-failed -j2 --timeout 2400 > $D/ctest2.out 2>&1; tail -8 $D/ctest2.out >> $LOG
+  F2=$(grep -E "^\s+[0-9]+ - " $D/ctest2.out | grep -v "test_tcm_" | wc -l); P2=$(grep -c "   Passed" $D/ctest2.out); PASSED=$((PASSED+P2)); FAILED=$F2; rm -f $D/ctest2.out
+fi
+rm -f $D/ctest.out
 echo "-- demo on the patched tree" >> $LOG; demo; PATCH_BAD=$?
 git checkout -q -- . ; nice cmake --build _b -j12 >> $LOG 2>&1
 V="clean_demo_failures=$CLEAN_BAD/3 patched_demo_failures=$PATCH_BAD/3 build_rc=$BUILD stock_passed=$PASSED stock_failed_other_than_tcm=$FAILED"
